@@ -127,13 +127,13 @@ pub fn probe_r7() -> SimCampaign {
 
 pub fn plan(_tier: Tier) -> Plan {
     Plan {
-        campaigns: vec![Box::new(main_campaign()), Box::new(probe_r6()), Box::new(probe_r7())],
+        campaigns: vec![Box::new(main_campaign()), Box::new(probe_r6()), Box::new(probe_r7()), Box::new(crate::fullstack::flow::Flow)],
         enumerators: vec![],
-        rule: "Histories of connect/disconnect/link-failure/reconnect (clean sessions)/subscribe/unsubscribe/publish(QoS0-2, bursts up to 260)/release/ack/drain/turn/settle ops by 2-5 well-behaved clients against the real router stepped turn by turn, over generated router configurations (segment size/count, outgoing batch size). Non-trivial: a client holds >=2 subscriptions on overlapping filters, a publish matches >=2 of them, at least one forward was observed and at least one of {inflight-full pause, busy/Unschedule pause, park-then-wake} occurred; distinct by hash of the whole history.".into(),
+        rule: "Histories of connect/disconnect/link-failure/reconnect (clean sessions)/subscribe/unsubscribe/publish(QoS0-2, bursts up to 260)/release/ack/drain/turn/settle ops by 2-5 well-behaved clients against the real router stepped turn by turn, over generated router configurations (segment size/count, outgoing batch size). Non-trivial: a client holds >=2 subscriptions on overlapping filters, a publish matches >=2 of them, at least one forward was observed and at least one of {inflight-full pause, busy/Unschedule pause, park-then-wake} occurred; distinct by hash of the whole history. The delivery clauses are also decided end to end through the real link code by the campaign shared with C09 — ".to_string() + crate::fullstack::flow::FLOW_RULE,
         assumptions: vec![
             "The router is single-threaded; links interact with it only through the event channel and two mutex-protected buffers, so every real schedule is a partition of the event sequence into turns plus drain points — which is what the generator draws".into(),
             "Completeness is asserted only for streams whose unread backlog stayed below (segment_count-1)*segment_size bytes (retention-relaxed streams keep the safety clauses)".into(),
-            "Known-finding regions R6 (broker topic alias with wildcard filter), R7 (re-subscribe with another QoS), R8 (UNSUBSCRIBE shapes) are excluded by construction and probed elsewhere".into(),
+            "Known-finding regions R6 (broker topic alias with wildcard filter), R7 (re-subscribe with another QoS) are excluded by construction and probed elsewhere (R8, UNSUBSCRIBE shapes, was repaired)".into(),
         ],
         min_nontrivial: 20,
     }
